@@ -161,6 +161,8 @@ func suiteT1cs(o *suiteOut, r *rng, tier string, n int) {
 		cat(hsbw, csInt(10), csInt(10), csOp(opRmoveto), csInt(20), csOp(opHlineto), csInt(5), csInt(5), csOp(opRmoveto), csInt(3), csOp(opVlineto), csOp(opClosepath), end),
 		cat(hsbw, csInt(1), csInt(2), csInt(3), csInt(4), csInt(5), csInt(6), csOp(opHstem3), csInt(1), csInt(2), csInt(3), csInt(4), csInt(5), csInt(6), csOp(opVstem3), csOp(opDotsection), end),
 		cat(hsbw, csInt(0), csInt(100), csInt(200), csInt(65), csInt(66), csOp(opSeac)),
+		cat(csInt(13), csInt(29), csInt(500), csInt(0), csOp(opSbw), csInt(1), csInt(2), csInt(3), csInt(4), csInt(5), csInt(6), csOp(opHstem3), csInt(1), csInt(2), csInt(3), csInt(4), csInt(5), csInt(6), csOp(opVstem3), csInt(7), csInt(8), csOp(opHstem), csInt(9), csInt(10), csOp(opVstem), csInt(5), csInt(6), csOp(opRmoveto), csInt(3), csOp(opHlineto), csOp(opClosepath), end),
+		cat(csInt(37), csInt(500), csOp(opHsbw), csInt(1), csInt(2), csInt(3), csInt(4), csInt(5), csInt(6), csOp(opVstem3), csInt(1), csInt(2), csInt(3), csInt(4), csInt(5), csInt(6), csOp(opHstem3), end),
 		cat(hsbw, csInt(100), csInt(200), csOp(opSetcurrentpoint), csInt(10), csOp(opHlineto), csOp(opClosepath), end),
 		{}, {12}, {255}, {255, 0, 0}, {247}, {251}, {12, 99}, {2}, {15}, {14}, {11}, {10}, {139, 10},
 	}
@@ -203,7 +205,9 @@ func suiteT1cs(o *suiteOut, r *rng, tier string, n int) {
 			if tier != "thorough" && h > 7 && h < 23 && r.intn(4) != 0 {
 				continue
 			}
-			c := append([]byte{}, hsbw...)
+			// the side bearing point differs in x and y so that operators relative to it are told apart
+			pro := pick(r, [][]byte{hsbw, cat(csInt(37), csInt(500), csOp(opHsbw)), cat(csInt(13), csInt(29), csInt(500), csInt(0), csOp(opSbw)), cat(csInt(-20), csInt(45), csInt(400), csInt(10), csOp(opSbw))})
+			c := append([]byte{}, pro...)
 			for k := 0; k < h; k++ {
 				c = append(c, csInt(r.rangeInt(0, 6))...)
 			}
